@@ -86,12 +86,12 @@ Section TheoremA.
       injection Hg as Hg; injection Hk as Hk; subst g0 k.
     - rewrite cana_step_SCall in Hs. unfold ccall_g in Hs.
       destruct (clines hl _) as [e|ph]; [discriminate Hs|].
-      cbn [site_named]. destruct (scallee_ctx_plain hv g) as [e|named]; [discriminate Hs|].
+      cbn [site_named]. destruct (scallee_ctx_plain hv g _) as [e|named]; [discriminate Hs|].
       destruct (cana hv hl g _ R) as [e|[c R']] eqn:Ec; [discriminate Hs|]. injection Hs as E1 E2 E3. subst.
       exists ph, named, c, R1. repeat split; try reflexivity. exact Ec.
     - rewrite cana_step_SRef in Hs. unfold ccall_g in Hs.
       destruct (clines hl _) as [e|ph]; [discriminate Hs|].
-      cbn [site_named]. destruct (scallee_ctx_plain hv g) as [e|named]; [discriminate Hs|].
+      cbn [site_named]. destruct (scallee_ctx_plain hv g _) as [e|named]; [discriminate Hs|].
       destruct (cana hv hl g _ R) as [e|[c R']] eqn:Ec; [discriminate Hs|]. injection Hs as E1 E2 E3. subst.
       exists ph, named, c, R1. repeat split; try reflexivity. exact Ec.
     - rewrite cana_step_SKeep in Hs. unfold ccall_g in Hs.
@@ -560,52 +560,41 @@ Section TheoremA.
   Lemma nth_error_nil_none : forall (A : Type) i, @nth_error A [] i = None.
   Proof. intros A [|i]; reflexivity. Qed.
 
-  Lemma skipn_nth_some : forall (A : Type) (l : list A) i e, nth_error l i = Some e -> skipn i l = e :: skipn (S i) l.
+  Lemma sarg_ctx_ast_nil : forall ps idx pos kw, sarg_ctx_ast hv ps idx pos kw = inr [] -> ps = [].
   Proof.
-    intros A. induction l as [|x l IH]; intros [|i] e H; try discriminate H.
-    - injection H as H. subst. reflexivity.
-    - cbn [nth_error] in H. cbn [skipn]. rewrite (IH i e H). reflexivity.
-  Qed.
-  Lemma skipn_nth_none : forall (A : Type) (l : list A) i, nth_error l i = None -> skipn i l = [] /\ skipn (S i) l = [].
-  Proof.
-    intros A. induction l as [|x l IH]; intros [|i] H; try discriminate H; try (split; reflexivity).
-    cbn [nth_error] in H. cbn [skipn]. destruct (IH i H) as [E1 E2]. split; [exact E1|].
-    destruct l; [reflexivity|exact E2].
+    intros [|p r] idx pos kw Hs; [reflexivity|]. exfalso. cbn [sarg_ctx_ast] in Hs.
+    set (slot := match nth_error pos idx with
+                 | Some a => sprocess_arg hv a
+                 | None => match kw_lookup (p_name p) kw with
+                           | Some a => sprocess_arg hv a
+                           | None => match p_default p with Some d => shash_opt hv (subst_default d) | None => inr None end
+                           end
+                 end) in Hs.
+    destruct (p_kind p); try discriminate Hs;
+      (destruct slot as [e|ho]; [discriminate Hs|]; destruct (sarg_ctx_ast hv r (S idx) pos kw); discriminate Hs).
   Qed.
 
-  (* g(e...): the analysis does not look at the arguments *)
-  Lemma call_kmatch : forall en all ps idx named pv,
-    params_ok UVal ps -> call_args_ok ps (skipn idx all) ->
-    sarg_ctx_ast hv ps idx [] [] = inr named ->
-    bind_args ps idx (map (eval_expr en) all) [] = Some pv ->
+  Lemma unbind_known : forall n l, args_known (unbind n l) = true -> unbind n l = l /\ (n = 0 \/ l = []).
+  Proof.
+    intros [|n] [|[k h] r] K; try (split; [reflexivity|auto]).
+    exfalso. cbn [unbind] in K. apply args_known_cons in K. destruct K as [K _]. apply K. reflexivity.
+  Qed.
+
+  (* g(e...): the analysis does not look at the arguments; the parameters they bind are unknown (fix F30), so when
+     every argument is known there is no explicit argument (or no parameter) *)
+  Lemma call_kmatch : forall en g args named pv,
+    params_ok UVal (fn_params g) ->
+    scallee_ctx_plain hv g (List.length args) = inr named ->
+    bind_args (fn_params g) 0 (map (eval_expr en) args) [] = Some pv ->
     args_known named = true -> kmatch hv UVal named pv.
   Proof.
-    intros en all. induction ps as [|p r IH]; intros idx named pv Hps Hca Hs Hb K.
-    - cbn in Hs, Hb. injection Hs as Hs. injection Hb as Hb. subst. constructor.
-    - inversion Hps as [|? ? Hp Hr]; subst.
-      cbn [sarg_ctx_ast] in Hs. cbn [bind_args] in Hb. rewrite nth_error_nil_none in Hs. cbn [kw_lookup] in Hs, Hb.
-      set (slot := match p_default p with Some d => shash_opt hv (subst_default d) | None => inr None end) in Hs.
-      assert (Hs' : exists ho l, slot = inr ho /\ sarg_ctx_ast hv r (S idx) [] [] = inr l /\
-                                 named = (p_name p, ho) :: l).
-      { destruct (p_kind p); try discriminate Hs;
-          (destruct slot as [e|ho]; [discriminate Hs|];
-           destruct (sarg_ctx_ast hv r (S idx) [] []) as [e|l]; [discriminate Hs|];
-           injection Hs as Hs; exists ho, l; split; [reflexivity|split; [reflexivity|symmetry; exact Hs]]). }
-      clear Hs. destruct Hs' as (ho & l & Hslot & Hrest & En). subst named. unfold slot in Hslot. clear slot.
-      apply args_known_cons in K. destruct K as [Hn K].
-      destruct (p_default p) as [d|] eqn:Ed; [|injection Hslot as Hslot; subst ho; exfalso; apply Hn; reflexivity].
-      rewrite nth_error_map in Hb.
-      destruct (bind_args r (S idx) (map (eval_expr en) all) []) as [pl|] eqn:Eb;
-        [|destruct (option_map (eval_expr en) (nth_error all idx)); discriminate Hb].
-      assert (Hv : exists v, pv = v :: pl /\ v = RVal d /\ call_args_ok r (skipn (S idx) all)).
-      { destruct (nth_error all idx) as [e|] eqn:Ee.
-        - cbn [option_map] in Hb. injection Hb as Hb. subst pv.
-          rewrite (skipn_nth_some _ _ _ _ Ee) in Hca. cbn [call_args_ok] in Hca. rewrite Ed in Hca.
-          destruct Hca as [He Hca]. subst e. eexists. split; [reflexivity|]. split; [reflexivity|exact Hca].
-        - cbn [option_map] in Hb. injection Hb as Hb. subst pv. eexists. split; [reflexivity|]. split; [reflexivity|].
-          rewrite (proj2 (skipn_nth_none _ _ _ Ee)). destruct r; exact I. }
-      destruct Hv as (v & Epv & Ev & Hca'). subst pv v. constructor; [apply default_kentry; assumption|].
-      exact (IH (S idx) l pl Hr Hca' Hrest Eb K).
+    intros en g args named pv Hps Hs Hb K. unfold scallee_ctx_plain in Hs.
+    destruct (sarg_ctx_ast hv (fn_params g) 0 [] []) as [e|named0] eqn:E0; [discriminate Hs|].
+    injection Hs as Hs. subst named. destruct (unbind_known _ _ K) as [Eu [Hn|Hn]].
+    - rewrite Eu in *. destruct args; [|discriminate Hn]. cbn [map] in Hb.
+      apply (keep_kmatch en [] [] (fn_params g) 0 named0 pv Hps); try assumption; constructor.
+    - subst named0. apply sarg_ctx_ast_nil in E0. rewrite E0 in Hb. cbn in Hb. injection Hb as Hb. subst pv.
+      rewrite Eu. constructor.
   Qed.
 
   (* at a call site of a well-formed body *)
@@ -617,8 +606,8 @@ Section TheoremA.
     intros cs s g en named pv Hw Hg Hps Hn Hpv K.
     destruct s as [line eline g0 args|line g0 ex|g0|line eline p g0 pos kw|p]; cbn in Hg; try discriminate Hg;
       injection Hg as Hg; subst g0; cbn [site_named site_pv wf_step] in *.
-    - apply (call_kmatch en args (fn_params g) 0 named pv Hps); assumption.
-    - apply (keep_kmatch en [] [] (fn_params g) 0 named pv Hps); try assumption; constructor.
+    - apply (call_kmatch en g args named pv Hps); assumption.
+    - apply (call_kmatch en g [] named pv Hps); assumption.
     - destruct Hw as [Hw1 Hw2]. apply (keep_kmatch en pos kw (fn_params g) 0 named pv Hps); assumption.
   Qed.
 
